@@ -7,6 +7,7 @@ package harness
 // and otherwise awkward text. The model is an ordered list of entries.
 
 import (
+	"encoding/json"
 	"fmt"
 	"strconv"
 	"strings"
@@ -33,14 +34,67 @@ type C08Step struct {
 	// lists are split (each multi-word item becomes several items, or all items become one): the lists
 	// differ although their words are the same
 	Respell int `json:"respell,omitempty"` // 0 no, 1 split items on spaces, 2 join items with a space
+	// Cwd: the directory the command is run from (index into c08Cwds): where the user happens to stand must not matter
+	Cwd int `json:"cwd,omitempty"`
 }
+
+var c08Cwds = []string{"/home/u/work", "/home/u/work", "/home/u", "/tmp/elsewhere"}
 
 type C08Case struct {
 	Main     []Cmd     `json:"main"`
 	Notebook string    `json:"notebook"` // missing empty populated handwritten malformed
 	Initial  []Cmd     `json:"initial,omitempty"`
 	Steps    []C08Step `json:"steps"`
+	// Shape (notebook "shaped"): the initial entries written in another valid YAML layout than the tool's own -
+	// what a notebook looks like after its owner edited it or generated it with another program
+	Shape string `json:"shape,omitempty"`
+	// Strays: files with the notebook's / history's names in places the tool has no business with (the working
+	// directory, sibling configuration directories); the tool must neither read nor write them
+	Strays []string `json:"strays,omitempty"`
 }
+
+var c08Shapes = []string{"indented", "flow", "nofinalnl", "blocklast", "crlf", "docmarker", "comments"}
+
+var c08StrayPaths = []string{"/home/u/work/personal.yml", "/home/u/.config/wtf/personal.yml", "/home/u/personal.yml", "/home/u/work/commands.yml", "/home/u/.config/cmd-finder/personal.yaml", "/home/u/work/search_history.json", "/home/u/.config/cmd-finder/search_history.json"}
+
+// shapeNotebook renders entries in a layout yaml.v3 would not have produced itself.
+func shapeNotebook(cs []Cmd, shape string) []byte {
+	std := string(yamlOf(cs))
+	switch shape {
+	case "indented":
+		return []byte("  " + strings.ReplaceAll(strings.TrimSuffix(std, "\n"), "\n", "\n  ") + "\n")
+	case "flow":
+		var items []map[string]any
+		for _, c := range cmdsToDB(cs) {
+			m := map[string]any{"command": c.Command, "description": c.Description, "keywords": c.Keywords, "pipeline": c.Pipeline}
+			if c.Niche != "" {
+				m["niche"] = c.Niche
+			}
+			if len(c.Platform) > 0 {
+				m["platform"] = c.Platform
+			}
+			if len(c.Tags) > 0 {
+				m["tags"] = c.Tags
+			}
+			items = append(items, m)
+		}
+		b, _ := json.Marshal(items)
+		return b
+	case "nofinalnl":
+		return []byte(strings.TrimSuffix(std, "\n"))
+	case "blocklast":
+		// the last entry ends in a literal block scalar and the file has no final line break
+		return []byte(std + "- command: zz-last\n  keywords: []\n  pipeline: false\n  description: |-\n    free\n    space")
+	case "crlf":
+		return []byte(strings.ReplaceAll(std, "\n", "\r\n"))
+	case "docmarker":
+		return []byte("---\n" + std + "...\n")
+	case "comments":
+		return []byte("# my notebook\n\n" + strings.ReplaceAll(std, "\n- ", "\n\n# next\n- ") + "# end\n")
+	}
+	return []byte(std)
+}
+
 
 var awkward = []string{
 	"- leading dash", "? question", ": colon", "key: value", "trailing colon:", "a #comment", "#hash", "'single'", "\"double\"",
@@ -101,6 +155,13 @@ func genC08(rt *rapid.T) C08Case {
 	c.Notebook = rapid.SampledFrom([]string{"missing", "missing", "empty", "populated", "populated", "handwritten", "malformed"}).Draw(rt, "notebook")
 	if c.Notebook == "populated" {
 		c.Initial = genDB(rt, 5)
+		if rapid.IntRange(0, 2).Draw(rt, "shaped") == 0 {
+			c.Notebook = "shaped"
+			c.Shape = rapid.SampledFrom(c08Shapes).Draw(rt, "shape")
+		}
+	}
+	if rapid.IntRange(0, 3).Draw(rt, "hasstrays") == 0 {
+		c.Strays = rapid.SliceOfNDistinct(rapid.SampledFrom(c08StrayPaths), 1, 3, rapid.ID[string]).Draw(rt, "strays")
 	}
 	stepGen := rapid.Custom(func(rt *rapid.T) C08Step {
 		st := C08Step{Kind: rapid.SampledFrom([]string{"save", "save", "save", "savepipe", "savepipe", "resave", "search", "search"}).Draw(rt, "kind")}
@@ -122,6 +183,7 @@ func genC08(rt *rapid.T) C08Case {
 		st.Target = rapid.IntRange(0, 20).Draw(rt, "target")
 		st.Short = rapid.Bool().Draw(rt, "short")
 		st.Respell = rapid.SampledFrom([]int{0, 0, 1, 2}).Draw(rt, "respell")
+		st.Cwd = rapid.IntRange(0, len(c08Cwds)-1).Draw(rt, "cwd")
 		return st
 	})
 	c.Steps = rapid.SliceOfN(stepGen, 1, tierN(10, 25)).Draw(rt, "steps")
@@ -213,6 +275,8 @@ func runC08(c C08Case) *Outcome {
 		w.disk.WriteRaw(pNotebook, nil, 0o644)
 	case "populated":
 		w.disk.WriteRaw(pNotebook, yamlOf(c.Initial), 0o644)
+	case "shaped":
+		w.disk.WriteRaw(pNotebook, shapeNotebook(c.Initial, c.Shape), 0o644)
 	case "handwritten":
 		w.disk.WriteRaw(pNotebook, []byte(handwrittenNotebook), 0o644)
 	case "malformed":
@@ -239,7 +303,20 @@ func runC08(c C08Case) *Outcome {
 	}
 	var beh []string
 	saves, replaced, found := 0, 0, 0
+	for _, sp := range c.Strays {
+		body := "- command: stray-entry\n  description: a file that merely has a familiar name\n  keywords: [stray]\n"
+		if strings.HasSuffix(sp, ".json") {
+			body = `{"entries": [], "max_size": 7}`
+		} else if len(sp)%2 == 0 {
+			body = ""
+		}
+		w.disk.WriteRaw(sp, []byte(body), 0o644)
+	}
+	for _, d := range c08Cwds {
+		w.disk.MkdirAllRaw(d, 0o755)
+	}
 	for i, st := range c.Steps {
+		w.disk.Cwd = c08Cwds[st.Cwd%len(c08Cwds)]
 		before, hadBefore := w.disk.ReadRaw(pNotebook)
 		before = append([]byte(nil), before...)
 		switch st.Kind {
